@@ -153,6 +153,13 @@ func genHSearch(r *core.Rand, tier string) *hsCase {
 				if r.Chance(0.1) {
 					w = "nomatch"
 				}
+				if r.Chance(0.08) {
+					// blank queries are queries: "" matches nothing, " " is an indexed token
+					// (the blank between two words)
+					w = []string{"", " ", "  ", "\t"}[r.Intn(4)]
+					cmd.QT = append(cmd.QT, w)
+					continue
+				}
 				if r.Chance(0.3) {
 					w += " " + hsVocab[r.Intn(len(hsVocab))]
 				}
